@@ -8,12 +8,14 @@ Domain : (a) the union-find core called directly (mj_dsuMerge / mj_dsuRoot / mj_
          (b) models: piles / rows of many kinematic trees on a plane (free, slide+hinge, ball, welded bodies), child
              links with limited joints and frictionloss, connect / weld / joint / tendon equalities between trees,
              fixed tendons across trees with frictionloss and limits; rows of adjacent single-dof trees coupled only through
-             generic-scan rows via the first dof of the later tree; plus vf.modelgen models; settled for 0..40 steps
+             generic-scan rows via the first dof of the later tree; small dim-2 flexes (elastic2d none/stretch/bend/both,
+             optional pin, a drawn subset of vertices lowered onto the floor, optionally two flexes); plus vf.modelgen models; settled for 0..40 steps
              so that contacts exist; jacobian sparse (oracle) and dense (differential).
 Oracle : own connected-components code (BFS over an adjacency dict, 15 lines).  (a) same partition, island ids ascending
          in each island's smallest tree, untouched trees -1, nidof = sum of dofnum over active trees, mj_dsuRoot returns
          the smallest tree of the component and never changes the partition.  (b) incidence = trees of the structural
-         non-zeros of every efc_J row; islands == components; efc_island / dof_island / tree_island consistent; dofs of
+         non-zeros of every efc_J row; islands == components of that incidence plus one clique per flex with elastic passive forces
+         (elastic2d != none, from the generator's own knowledge of the XML); efc_island / dof_island / tree_island consistent; dofs of
          unconstrained trees -1; the dof, efc and tree index maps are mutually inverse permutations and contiguous per
          island; address arrays are cumulative sums; per-island equality/friction counts; island-ordered copies of
          efc_type/id/D/R/frictionloss are gathers; the dense Jacobian run is judged directly against the components of its own
@@ -293,6 +295,54 @@ def adjacent_models(draw):
   return mg.GenModel(xml, dict(labels=['adjacent', 'solver:' + solver] + (['eq'] if eq else []) + (['tendon'] if tend else [])))
 
 
+@st.composite
+def flex_models(draw):
+  """Small dim-2 flexes (every vertex is its own kinematic tree) above a plane; a drawn subset of vertices is lowered onto the
+  floor, the others stay in the air.  elastic2d in {none, stretch, bend, both} decides whether the flex has elastic passive
+  forces, i.e. whether its vertex trees are stiffness-coupled (XMLreference flex/elasticity/elastic2d)."""
+  nflex = draw(st.integers(1, 2))
+  fx, e2ds, lowered = '', [], []
+  for f in range(nflex):
+    a, b = draw(st.sampled_from([(2, 2), (2, 3), (3, 2), (3, 3)]))
+    e2d = draw(st.sampled_from(['none', 'stretch', 'bend', 'bend', 'both']))
+    pin = '<pin id="%d"/>' % draw(st.integers(0, a * b - 1)) if draw(st.integers(0, 3)) == 0 else ''
+    fx += ('<flexcomp name="fx%d" type="grid" dim="2" count="%d %d 1" spacing=".1 .1 .1" pos="%r 0 .3" mass="1" radius=".01">'
+           '<elasticity young="%s" poisson="0.2" thickness="0.01" elastic2d="%s"/><contact selfcollide="none" internal="false"/>%s</flexcomp>') % (
+               f, a, b, 0.8 * f, draw(st.sampled_from(['1e3', '1e4'])), e2d, pin)
+    e2ds.append(e2d)
+    nlow = draw(st.integers(0, 3))
+    lowered.append(sorted(set(draw(st.lists(st.integers(0, a * b - 1), min_size=nlow, max_size=nlow)))))
+  extra = '<body name="lone" pos="2 0 1"><joint name="jl" type="slide" axis="0 0 1" range="-1 1" limited="true"/><geom size=".05"/></body>'
+  if draw(st.booleans()):
+    extra += '<body name="ball" pos="-1 0 0.049"><freejoint/><geom size=".05"/></body>'
+  solver = draw(st.sampled_from(['Newton', 'CG']))
+  cone = draw(st.sampled_from(['pyramidal', 'elliptic']))
+  xml = ('<mujoco><option jacobian="sparse" solver="%s" cone="%s" timestep="0.001"><flag island="disable"/></option><worldbody>'
+         '<geom name="floor" type="plane" size="3 3 .1"/>%s%s</worldbody></mujoco>') % (solver, cone, fx, extra)
+  return mg.GenModel(xml, dict(labels=['flex', 'solver:' + solver, 'cone:' + cone] + ['flex:elastic2d=' + e for e in sorted(set(e2ds))],
+                               elastic2d=e2ds, lowered=lowered))
+
+
+def flex_setup(lib, m, d, gm):
+  """Lower the drawn vertices onto the floor, push the lone slider beyond its limit. Returns the stiffness cliques (lists of trees)."""
+  lib.mj_kinematics(m, d)
+  lib.mj_flex(m, d)
+  vx = np.array(d.flexvert_xpos).reshape(-1, 3)
+  vb = m.flex_vertbodyid.tolist()
+  cliques = []
+  for f, (e2d, low) in enumerate(zip(gm.info['elastic2d'], gm.info['lowered'])):
+    adr, num = int(m.flex_vertadr[f]), int(m.flex_vertnum[f])
+    for v in low:
+      b = vb[adr + v]
+      if int(m.body_dofnum[b]) == 3:                      # not pinned: three slides x, y, z
+        qa = int(m.jnt_qposadr[int(m.body_jntadr[b])]) + 2
+        d.qpos[qa] = float(d.qpos[qa]) - float(vx[adr + v, 2]) + 0.005
+    if e2d != 'none':
+      cliques.append(sorted({int(m.body_treeid[b]) for b in vb[adr:adr + num]} - {-1}))
+  d.qpos[int(m.jnt_qposadr[lib.mj_name2id(m, lib.enums.mjOBJ_JOINT, 'jl')])] = 1.2
+  return cliques
+
+
 def row_trees_sparse(m, d):
   """Per efc row: frozenset of trees of the structural non-zeros of efc_J (sparse layout)."""
   nnz, adr, col = d.efc_J_rownnz, d.efc_J_rowadr, d.efc_J_colind
@@ -306,11 +356,12 @@ def row_trees_dense(m, d):
   return [frozenset(int(tid[c]) for c in np.flatnonzero(J[i])) for i in range(int(d.nefc))]
 
 
-def check_islands(lib, m, d, rows, what):
-  """Full structural check of the island arrays of d against the components of the incidence `rows`."""
+def check_islands(lib, m, d, rows, what, cliques=()):
+  """Full structural check of the island arrays of d against the components of the incidence `rows` (+ one clique of trees per
+  stiffness-coupled flex; island discovery only runs when there is at least one constraint row)."""
   E = lib.enums
   ntree, nv, nefc = int(m.ntree), int(m.nv), int(d.nefc)
-  label, k = components(ntree, rows)
+  label, k = components(ntree, list(rows) + ([c for c in cliques if len(c) >= 2] if nefc else []))
   if any(len(r) == 0 for r in rows):
     raise Violation('%s: a constraint row has an empty Jacobian row' % what, bucket='model-empty-row')
   if int(d.nisland) != k:
@@ -401,6 +452,7 @@ def dense_oracle_rows(lib, m, d, m2, d2, rows_sparse):
   kd = list(zip(d2.efc_type.tolist(), d2.efc_id.tolist()))
   numeric = row_trees_dense(m2, d2)
   eqt = m.eq_type.tolist()
+  cgeom = d2.contact['geom'].tolist() if int(d2.ncon) else []
   out, p = [], 0
   for i, key in enumerate(kd):
     while p < len(ks) and ks[p] != key:
@@ -409,7 +461,8 @@ def dense_oracle_rows(lib, m, d, m2, d2, rows_sparse):
       return None
     t, cid = key
     generic = t in (E.mjCNSTR_FRICTION_TENDON, E.mjCNSTR_LIMIT_TENDON) or (
-        t == E.mjCNSTR_EQUALITY and eqt[cid] in (E.mjEQ_JOINT, E.mjEQ_TENDON))
+        t == E.mjCNSTR_EQUALITY and eqt[cid] in (E.mjEQ_JOINT, E.mjEQ_TENDON)) or (
+        t in (E.mjCNSTR_CONTACT_FRICTIONLESS, E.mjCNSTR_CONTACT_PYRAMIDAL, E.mjCNSTR_CONTACT_ELLIPTIC) and min(cgeom[cid]) < 0)   # flex contact
     out.append(numeric[i] if generic else rows_sparse[p])
     p += 1
   return out
@@ -438,7 +491,11 @@ def check_model(ck, lib, gm, seed, nsteps):
   isl_on = isl_off & ~int(E.mjDSBL_ISLAND)
   ck.journal(dict(xml=gm.xml, seed=seed, nsteps=nsteps))
   d = lib.make_data(m)
-  if 'pile' in gm.labels() or 'adjacent' in gm.labels():
+  cliques = []
+  if 'flex' in gm.labels():
+    cliques = flex_setup(lib, m, d, gm)
+    d.qvel[:] = np.random.RandomState(seed).uniform(-0.05, 0.05, m.nv)
+  elif 'pile' in gm.labels() or 'adjacent' in gm.labels():
     rng = np.random.RandomState(seed)
     d.qvel[:] = rng.uniform(-0.3, 0.3, m.nv)
   else:
@@ -446,7 +503,7 @@ def check_model(ck, lib, gm, seed, nsteps):
   m.opt.disableflags = isl_on
   lib.mj_fwdPosition(m, d)
   if not lib.warnings():
-    check_islands(lib, m, d, row_trees_sparse(m, d), 'sparse(initial state)')
+    check_islands(lib, m, d, row_trees_sparse(m, d), 'sparse(initial state)', cliques)
   m.opt.disableflags = isl_off
   try:
     for _ in range(nsteps):
@@ -465,7 +522,7 @@ def check_model(ck, lib, gm, seed, nsteps):
     ck.discard('warning')
     return
   rows = row_trees_sparse(m, d)
-  label, k = check_islands(lib, m, d, rows, 'sparse')
+  label, k = check_islands(lib, m, d, rows, 'sparse', cliques)
   nefc = int(d.nefc)
   # ---- differential: dense Jacobian at the same state
   m2 = lib.copy_model(m)
@@ -482,7 +539,7 @@ def check_model(ck, lib, gm, seed, nsteps):
   if rows_do is None:
     labels.append('dense:rows-not-alignable')
   else:
-    label_d, k_d = check_islands(lib, m2, d2, rows_do, 'dense(direct)')
+    label_d, k_d = check_islands(lib, m2, d2, rows_do, 'dense(direct)', cliques)
     labels.append('dense:direct')
     if int(d2.nefc) != nefc:
       labels.append('dense:dropped-zero-rows')
@@ -505,7 +562,7 @@ def check_model(ck, lib, gm, seed, nsteps):
                       xml=gm.xml if len(gm.xml) < 3000 else gm.xml[:3000]) if nt else None,
           labels=['model', 'nisland=%s' % (k if k < 4 else '>=4'), 'largest-island-trees=%s' % (big if big < 4 else '>=4'),
                   'unconstrained-trees' if ntrees_active < m.ntree else 'all-trees-constrained'] + labels +
-                 ['efc-type:%d' % t for t in kinds] + [l for l in gm.labels() if l.startswith(('pile', 'adjacent', 'eq', 'tendon', 'cone', 'solver'))])
+                 ['efc-type:%d' % t for t in kinds] + [l for l in gm.labels() if l.startswith(('pile', 'adjacent', 'flex', 'eq', 'tendon', 'cone', 'solver'))])
 
 
 # ------------------------------------------------------------------ main
@@ -516,9 +573,11 @@ def main(ck):
              'interleaved root queries, random symmetric graphs for mj_floodFill; (b) pile models (3..10 trees in a row on a plane with '
              'equalities/tendons between trees) and vf.modelgen models, settled 0..40 steps, sparse + dense Jacobian. '
              'non-trivial = >= 3 islands or a component built by >= 3 unions (>= 4 trees); distinct by (merge sequence) / (graph) / (xml, seed, steps)')
-  ck.assumptions = ['solver PGS is not generated: with a sparse Jacobian this tree raises "pre and post-count of Y_rownnz are not equal" in '
+  ck.assumptions = ['flex coupling rule used by the oracle: a dim-2 flex with young > 0 and elastic2d in {stretch, bend, both} couples all its non-pinned vertex '
+                    'trees whenever island discovery runs (nefc > 0), also when none of them carries a constraint row; elastic2d=none couples nothing',
+                    'solver PGS is not generated: with a sparse Jacobian this tree raises "pre and post-count of Y_rownnz are not equal" in '
                     'mj_projectConstraint for tendon rows over simple (diagonal-inertia) dofs - a defect outside island discovery, reported separately',
-                    'no flex in generated models (the flex-stiffness clause of the statement is not exercised)', 'sleeping disabled',
+                    'flexes: only dim-2 grid flexcomps with vertex dofs (no dim-3, no interpolated/trilinear flexes, no flex equalities)', 'sleeping disabled',
                     'the dense run is judged against the components of its own incidence: numerical non-zeros for generic-scan rows (tendon friction/limit, '
                     'joint/tendon equality), body trees (= structural sparse pattern at the same state) for shortcut rows']
 
@@ -635,7 +694,7 @@ def main(ck):
   def test_model(case):
     gm, seed, nsteps = case
     check_model(ck, lib, gm, seed, nsteps)
-  gen = st.one_of(pile_models(), pile_models(), adjacent_models(), adjacent_models(),
+  gen = st.one_of(pile_models(), pile_models(), adjacent_models(), adjacent_models(), flex_models(),
                   mg.models(min_bodies=3, max_bodies=9, plane=True, spread=0.6, sensors=False, actuators=False,
                             joint_types=('free', 'hinge', 'slide'),     # no hinge+ball stacks (singular inertia)
                             opt_kwargs=dict(islands=False, jacobians=('sparse',), flags=False, integrators=('Euler', 'implicitfast'),
@@ -651,6 +710,6 @@ and with random histories (64 trees x 200 operations, interleaved root queries);
 multi-tree models (contacts, connect/weld/joint/tendon equalities, tendon friction/limits, joint friction/limits) are settled and every island array of
 mjData is compared with the connected components of the tree incidence of the sparse constraint Jacobian computed by own BFS code; the index maps are
 checked to be mutually inverse, contiguous per island, with cumulative address arrays; the dense-Jacobian run must give the same partition.'''
-LEVEL_NOTE = '''Flex models are not generated, so the flex-stiffness coupling clause is not exercised. The order of dofs/rows inside an island segment is
+LEVEL_NOTE = '''Flex coverage is limited to small dim-2 grid flexcomps (elastic2d none/stretch/bend/both); dim-3, interpolated (node-based) flexes and flex equality constraints are not generated. The order of dofs/rows inside an island segment is
 not asserted (only contiguity and inverse maps), except island_dofadr == smallest dof of the island. The dense run is judged on its own numerical incidence (generic-scan rows) and
 additionally against the sparse partition when both incidences coincide. Island discovery under sleeping is out of scope here (C18).'''
